@@ -88,9 +88,6 @@ def Ext.onCurve (p : Ext) : Bool :=
 def Ext.torsionFree (p : Ext) : Bool := (p.mulBits RJ).isIdentity
 def Ext.primeOrder (p : Ext) : Bool := p.torsionFree && !p.isIdentity
 
-/-- `8⁻¹ mod r_J` (`EIGHT_INV` of `src/composer/point.rs`; value re-read by `Generated`) -/
-def EIGHT_INV_RJ : Nat := 0x01cfb69d4ca675f520cce7602026876014cd0412799902105a12e1cbdadee597
-
 /-- scalar multiplication of an affine point, identity on the (impossible for curve points) `Z = 0`. -/
 def edMul (k : Nat) (p : Pt) : Pt := (((Ext.ofAffine p).mulBits k).toAffine?).getD Pt.id
 
